@@ -122,8 +122,12 @@ PROPERTIES = {
                            "StingyConfigurator: defaults, default priorities, polyhedron)."},
     "C17": {"rt": ["rt.config:c17_b64"], "level": "other", "assumptions": S_ALL + ["A-pickle"],
             "explanation": "bounded stand-in only so far"},
-    "C18": {"rt": ["rt.config:c18_add"], "level": "other", "assumptions": S_ALL,
-            "explanation": "bounded stand-in only so far"},
+    "C18": {"harness_modules": ["contracts.c18"], "rt": ["rt.config:c18_add"], "level": "other", "assumptions": S_ALL,
+            "explanation": "deductive: StingyConfigurator.add (real source, with All.__init__/AtLeast.__init__) on a configurator of any "
+                           "width: refuses exactly the clashing ids, otherwise returns a StingyConfigurator with the same id whose "
+                           "children are the old ones plus the new rule and whose threshold is their number; receiver untouched "
+                           "(frame). bounded stand-in: equality of default priorities, polyhedra and solutions with direct "
+                           "construction, sequences of additions, additions after the original was queried."},
     "C19": {"rt": ["rt.arrays:c19_points"], "level": "other", "assumptions": S_ALL,
             "explanation": "bounded stand-in only so far"},
     "C20": {"rt": ["rt.arrays:c20_bridges"], "level": "other", "assumptions": S_ALL,
